@@ -42,6 +42,10 @@ if os.path.exists(_p):
     PENDING = json.load(open(_p))
 
 
+MUST_HAVE = ["activesync/activesync-031-sendmail-request.xml", "activesync/activesync-030-sendmail-request.xml",
+             "activesync/activesync-032-formatted-base64.xml", "syncml/syncml-011.xml", "syncml/syncml-003.xml",
+             "ddf/syncml_with_ddf-001.xml"]
+
 HAND_WBXML = [
     "03056a0478797a00" "c5" "0400" "037600" "01" "01",                 # SI: <si xyz="v"></si>  (LITERAL attribute name)
     "03056a0478797a00" "4400" "01",                                     # SI: literal tag <xyz> with content
@@ -113,7 +117,15 @@ def corpus(ctx):
     for d in sorted(by):
         pick += sorted(by[d], key=lambda p: (os.path.getsize(p), p))[:per]
     limit = 3000 if ctx.tier == "quick" else 12000
-    return [p for p in pick if os.path.getsize(p) <= limit]
+    pick = [p for p in pick if os.path.getsize(p) <= limit]
+    # always there, in both tiers, every k, both directions: documents that reach code no small document reaches —
+    # binary-flagged ActiveSync elements whose text starts right after the start tag (MIME, ConversationId), base64-formatted
+    # content, and SyncML documents carrying an EMBEDDED DevInf / DDF document (parsed into a tree of its own)
+    for rel in MUST_HAVE:
+        q = os.path.join(common.REPO, "test", "tools", rel)
+        if os.path.exists(q) and q not in pick:
+            pick.append(q)
+    return pick
 
 
 _names = {}
